@@ -3,6 +3,7 @@ package main
 
 import (
 	"fmt"
+	"go/constant"
 	"go/token"
 	"go/types"
 	"strings"
@@ -23,6 +24,8 @@ func checkC08(c *Ctx) {
 	c.Rule("C08/R8", "what a projection remembers about a key depends on the key alone: every per-projection cache filled while projecting (the .config key-to-field table) is keyed by every per-result input of the cached decision — whether a key belongs to .config is a property of the result (file vs internal configuration), so it must not be cached per key")
 
 	c.Rule("C08/R11", "extractors keep no state between results: no closure built by the extractor constructors writes memory it captured (a remembered 'last name' aliases the reader's reused line buffer, so a later benchmark gets an earlier one's key)")
+	c.Rule("C08/R12", "the name is returned unchanged only when nothing is to be left out: every path on which the excluding .fullname extractor returns the full name as it is has established that either GOMAXPROCS is not excluded or the name carries no '-' (the -N suffix has no '/', so a test for '/' alone cannot stand in for it)")
+	c.Rule("C08/R13", "every projection starts from an empty row: before the projection functions run, the whole row buffer is reset (a loop storing \"\" into every element, or clear), so a field no function assigns for this result reads as missing rather than as the previous result's value")
 	c.Rule("C08/R10", "trimmed values are read with care: only the reviewed accessors (Key.Get, Key.string, keyNode.equalRow) index a key's stored values, everything else reads through Key.Get; where a walk over fields meets a field beyond the stored values it skips that field and continues")
 	c.Rule("C08/R9", "keys see every field: the flattened-field cache that Key.String, StringValues and the residue rely on is rebuilt whenever a field is added (same rule as C09/R10: builder leaves non-nil, reset guarded by != nil)")
 	p := mustLoad(c, loadOpts{}, "./benchproc", "./benchproc/internal/parse", "./benchfmt")
@@ -51,6 +54,8 @@ func checkC08(c *Ctx) {
 			}
 		}
 	}
+	c08Untransformed(c, p)
+	c08RowReset(c, p)
 	closuresKeepNoState(c, p, "C08/R11", ctors, 2, "an extractor writes memory it captured (at %s): whatever it remembers of one result — the name it last saw is a view into the reader's reused line buffer — is stale or overwritten when the next result arrives, so a different benchmark can be given the previous one's key")
 }
 
@@ -795,4 +800,236 @@ func c08SafeAt(p *Prog) map[*ssa.Function]bool {
 		}
 	}
 	return out
+}
+
+// c08Untransformed (C08/R12).
+func c08Untransformed(c *Ctx, p *Prog) {
+	const R = "C08/R12"
+	// the excluding extractor: the benchproc function with a *Result parameter and two bool parameters
+	var fn *ssa.Function
+	for _, f := range p.Funcs("benchproc") {
+		nb := 0
+		for _, prm := range f.Params {
+			if isBoolean(prm.Type()) {
+				nb++
+			}
+		}
+		if f.Parent() == nil && nb == 2 && len(callsIn(f, bfPkg, "Name", "Full")) > 0 && len(callsIn(f, bfPkg, "Name", "Parts")) > 0 {
+			fn = f
+		}
+	}
+	if fn == nil {
+		c.Undecided(R, "anchor:excluding fullname extractor", "", "not found")
+		return
+	}
+	site := p.pos(fn.Pos())
+	var bools []string
+	for _, prm := range fn.Params {
+		if isBoolean(prm.Type()) {
+			bools = append(bools, "param:"+prm.Name())
+		}
+	}
+	// which of the two switches is the GOMAXPROCS one: the one tested next to a '-' test
+	gmp := ""
+	eachInstr(fn, func(b *ssa.BasicBlock, in ssa.Instruction) {
+		bo, ok := in.(*ssa.BinOp)
+		if !ok || bo.Op != token.EQL {
+			return
+		}
+		if k, ok := constInt(bo.Y); !ok || k != '-' {
+			return
+		}
+		for _, f := range factsAt(b) {
+			if prm, ok := f.Cond.(*ssa.Parameter); ok && f.True && isBoolean(prm.Type()) {
+				gmp = "param:" + prm.Name()
+			}
+		}
+	})
+	if gmp == "" || len(bools) != 2 {
+		c.Undecided(R, "anchor:exclusion switches", site, "cannot tell the name switch from the GOMAXPROCS switch")
+		return
+	}
+	nameSw := bools[0]
+	if nameSw == gmp {
+		nameSw = bools[1]
+	}
+	outs, why := regionOutcomes(fn, func() *e6Interp {
+		return &e6Interp{PureCall: func(f *types.Func) bool { return true }, MaxAtoms: 16, OuterName: func(v ssa.Value) string {
+			if call, ok := v.(*ssa.Call); ok && objIs(calleeObj(&call.Call), bfPkg, "Name", "Full") {
+				return "the-full-name"
+			}
+			return v.Name()
+		}}
+	}, 2048)
+	if why != "" {
+		c.Undecided(R, "extractor:paths", site, why)
+		return
+	}
+	// established(o, gmp): the path conditions of o say that GOMAXPROCS is kept or that the name has no '-'
+	established := func(o *e6Outcome, gmpName string) (gmpOff, noDash bool) {
+		for _, k := range o.AtomKeys() {
+			v := o.Assign[k]
+			s := o.AtomSyms[k]
+			switch {
+			case s.String() == gmpName && !v:
+				gmpOff = true
+			case s.Op == "binop" && strings.Contains(s.String(), "bytes.IndexByte") && strings.Contains(s.String(), ",45)") && len(s.Args) == 2:
+				lhsIsCall := s.Args[0].Op == "call"
+				switch {
+				case lhsIsCall && s.Tok == token.GEQ && !v, lhsIsCall && s.Tok == token.LSS && v, !lhsIsCall && s.Tok == token.LEQ && !v, !lhsIsCall && s.Tok == token.GTR && v:
+					noDash = true
+				}
+			}
+		}
+		return
+	}
+	// a predicate of the package deciding "nothing to do": all its false returns must establish the same
+	predOK := func(g *ssa.Function, gmpIdx int) (bool, string) {
+		if g == nil || g.Blocks == nil || gmpIdx < 0 || gmpIdx >= len(g.Params) {
+			return false, "the predicate cannot be inspected"
+		}
+		gouts, why := regionOutcomes(g, func() *e6Interp {
+			return &e6Interp{PureCall: func(f *types.Func) bool { return true }, MaxAtoms: 16}
+		}, 2048)
+		if why != "" {
+			return false, why
+		}
+		nFalse := 0
+		for _, o := range gouts {
+			if o.Term != "return" || len(o.Results) != 1 {
+				continue
+			}
+			res := o.Results[0]
+			isFalse := res.isConst() && res.Const != nil && res.Const.Kind() == constant.Bool && !constant.BoolVal(res.Const)
+			if res.isConst() && !isFalse {
+				continue // returns true
+			}
+			nFalse++
+			off, nd := established(o, "param:"+g.Params[gmpIdx].Name())
+			if !isFalse {
+				// a computed verdict: it may be false; that is fine when its being false means "no '-' in the name"
+				if res.Op == "binop" && len(res.Args) == 2 && strings.Contains(res.String(), "bytes.IndexByte") && strings.Contains(res.String(), ",45)") {
+					lhsIsCall := res.Args[0].Op == "call"
+					if (lhsIsCall && res.Tok == token.GEQ) || (!lhsIsCall && res.Tok == token.LEQ) || (lhsIsCall && res.Tok == token.NEQ) {
+						nd = true
+					}
+				}
+				if res.String() == "param:"+g.Params[gmpIdx].Name() {
+					off = true
+				}
+			}
+			if !(off || nd) {
+				return false, "a false return of " + g.Name() + " does not depend on the GOMAXPROCS switch or on a '-' in the name"
+			}
+		}
+		return nFalse > 0, "no false return found in " + g.Name()
+	}
+	n := 0
+	for _, o := range outs {
+		if o.Term != "return" || len(o.Results) != 1 {
+			continue
+		}
+		r := o.Results[0]
+		if !(r.Op == "call" && strings.Contains(r.Name, ".Full")) && !strings.Contains(r.String(), "the-full-name") {
+			continue
+		}
+		n++
+		gmpOff, noDash := established(o, gmp)
+		viaPred := false
+		predWhy := ""
+		if !(gmpOff || noDash) {
+			for _, k := range o.AtomKeys() {
+				s := o.AtomSyms[k]
+				if s.Op != "call" || o.Assign[k] {
+					continue
+				}
+				// which argument is the GOMAXPROCS switch
+				gi := -1
+				for ai, a := range s.Args {
+					if a.String() == gmp {
+						gi = ai
+					}
+				}
+				if gi < 0 {
+					continue
+				}
+				var g *ssa.Function
+				for _, f := range p.Funcs("benchproc") {
+					if f.Parent() == nil && strings.HasSuffix(strings.Split(s.Name, "@")[0], "."+f.Name()) && len(f.Params) == len(s.Args) {
+						g = f
+					}
+				}
+				viaPred, predWhy = predOK(g, gi)
+			}
+		}
+		key := fmt.Sprintf("untransformed-return#%d", n)
+		c.Check(gmpOff || noDash || viaPred, R, key, site, "returned unchanged only with no GOMAXPROCS suffix to drop", fmt.Sprintf("the full name is returned unchanged on a path that has not established that nothing is to be left out (GOMAXPROCS kept: %v, no '-' in the name: %v%s): with /gomaxprocs projected separately, Alloc-4 and Alloc-8 keep their suffix in .fullname and in the residue", gmpOff, noDash, map[bool]string{true: "; " + predWhy, false: ""}[predWhy != ""]))
+	}
+	c.Floor(R, "returns of the unchanged name", n, 1)
+}
+
+// c08RowReset (C08/R13).
+func c08RowReset(c *Ctx, p *Prog) {
+	const R = "C08/R13"
+	rowF := p.Field("benchproc", "Projection", "row")
+	projF := p.Field("benchproc", "Projection", "project")
+	if rowF == nil || projF == nil {
+		c.Undecided(R, "anchor:Projection.row/project", "", "fields not found")
+		return
+	}
+	n := 0
+	for _, fn := range p.Funcs("benchproc") {
+		// the function that runs the projection functions: a dynamic call of an element of Projection.project
+		var run *ssa.Call
+		eachInstr(fn, func(_ *ssa.BasicBlock, in ssa.Instruction) {
+			call, ok := in.(*ssa.Call)
+			if !ok || call.Call.IsInvoke() || call.Call.StaticCallee() != nil {
+				return
+			}
+			if ld, ok := call.Call.Value.(*ssa.UnOp); ok {
+				if ia, ok := ld.X.(*ssa.IndexAddr); ok {
+					if f, _ := loadOfField(ia.X); f == projF {
+						run = call
+					}
+				}
+			}
+		})
+		if run == nil {
+			continue
+		}
+		n++
+		// a reset of the whole row that every path to the first projection call passes: clear(row), or a loop whose body
+		// stores "" into row[i] and whose header dominates the call
+		reset := false
+		eachInstr(fn, func(b *ssa.BasicBlock, in ssa.Instruction) {
+			switch x := in.(type) {
+			case *ssa.Call:
+				if bi, ok := x.Call.Value.(*ssa.Builtin); ok && bi.Name() == "clear" {
+					if f, _ := loadOfField(x.Call.Args[0]); f == rowF && (b == run.Block() || b.Dominates(run.Block())) {
+						reset = true
+					}
+				}
+			case *ssa.Store:
+				s, ok := constString(x.Val)
+				if !ok || s != "" {
+					return
+				}
+				ia, ok := x.Addr.(*ssa.IndexAddr)
+				if !ok {
+					return
+				}
+				if f, _ := loadOfField(ia.X); f != rowF {
+					return
+				}
+				for _, lp := range naturalLoops(fn) {
+					if lp.Blocks[b] && !lp.Blocks[run.Block()] && lp.Header.Dominates(run.Block()) {
+						// over the whole row: the index is the loop's own counter from the start
+						reset = true
+					}
+				}
+			}
+		})
+		c.Check(reset, R, fnName(fn)+":row-reset", p.pos(run.Pos()), "the whole row buffer is reset before the projection functions run", "the projection functions run on a row buffer that still holds the previous result's values: a field that no function assigns for this result (the unit after a ProjectValues call, a key a sparse group did not see) keeps its old value, so two results with different values get equal keys, or equal ones different keys, depending on what was projected before")
+	}
+	c.Floor(R, "functions running the projection functions", n, 1)
 }
